@@ -1,4 +1,6 @@
 ENGINES = [
+ dict(name="vsched", path="engine/vsched/", serves_properties=["C05", "C10"],
+      kind_free_text="controlled scheduler (libc interposition of pthread create/join/exit/mutex/cond, futex baton hand-off) + stateless preemption-bounded DFS explorer, one forked child per execution; replay of a schedule is deterministic and checked twice"),
  dict(name="bsx", path="harness/", serves_properties=["C13"],
       kind_free_text="bounded-scope exhaustive enumeration / explicit-state BFS over op histories of the real code against a boring reference model (C++ harnesses linked to the code built from /repo)"),
 ]
